@@ -147,7 +147,7 @@ def deep_scenarios(draw):
     src = S.RndSrc(rnd)
     annotated = draw(st.booleans())
     tmpl = draw(st.sampled_from(["pileups", "pileups", "pileups", "plateau", "plateau", "long_gene", "long_gene",
-                                 "one_bin"]))
+                                 "one_bin", "front_cluster", "front_cluster", "front_cluster"]))
     if tmpl == "plateau":
         sc = S.gen_plateau_locus(src, with_annotation=annotated)
         sc["template"] = "plateau"
@@ -157,6 +157,10 @@ def deep_scenarios(draw):
     elif tmpl == "long_gene":
         sc = S.gen_long_gene_locus(src, with_annotation=annotated)
         sc["template"] = "long_gene"
+    elif tmpl == "front_cluster":
+        # a small cluster that ends in the bin in which the big (split) cluster begins with short reads
+        sc = S.gen_deep_locus(src, with_annotation=annotated, front_cluster=True)
+        sc["template"] = "front_cluster"
     else:
         sc = S.gen_deep_locus(src, with_annotation=annotated)
         sc["template"] = "pileups"
